@@ -71,6 +71,7 @@ def run(ck):
     ok_call = ev_call(succ)
     errflag_bad = E.m_is_ref("errflag")      # `errflag != DISK_OK` normalises to the truthiness atom `errflag` (DISK_OK is the macro 0)
     expected = ck.m_result_of(wc, IO + "expectedReply")
+    ck.need(ck.trigger_edges(wc, errflag_bad, True), "C16: writeCompleted no longer tests errflag directly (re-confirm the W2 instance)")
     ck.require_fact("W2.success-gates", fl, ok_call, ck.m_result_of(wc, IO + "stillWaiting"), True, "handleWriteCompletionSuccess()", why="(a closed entry would be linked)", history=True)
     ck.require_fact("W2.success-gates", fl, ok_call, errflag_bad, False, "handleWriteCompletionSuccess()", why="(a failed disk write would be linked into the index)")
     ck.require_fact("W2.success-gates", fl, ok_call, expected, True, "handleWriteCompletionSuccess()", why="(an out-of-order write reply would be linked)")
@@ -153,8 +154,9 @@ def run(ck):
     ck.require_response("V1.mismatch-throws", url, E.m_calls("strcasecmp"), True, ev_throw(), "throw", term_kinds=("IfStmt",))
     ck.require_response("V1.mismatch-throws", url, E.m_calls("memrchr"), False, ev_throw(), "throw", term_kinds=("IfStmt",))
     un = facts.fn("Store::SwapMetaUnpacker::SwapMetaUnpacker")
+    ck.require_fact("V1.header-within-buffer", ck.flow(un), ev_assign("swap_hdr_sz"), E.m_calls("Less"), False, "swap_hdr_sz =",
+                    why="(a metadata size beyond the bytes read would be accepted)")
     ck.require_response("V1.mismatch-throws", un, E.m_calls("Less"), True, ev_throw(), "throw", term_kinds=("IfStmt",))
-    ck.require_fact("V1.header-within-buffer", ck.flow(un), ev_assign("swap_hdr_sz"), E.m_calls("Less"), False, "swap_hdr_sz =")
 
     # ------------------------------------------------------------------ ufs: log after completion, validate on rebuild
     ck.rule("U1 storeSwapOutFileClosed: swap_status = SWAPOUT_DONE and storeDirSwapLog(SWAP_LOG_ADD) only with errflag F and objectLen() < 0 F "
@@ -163,6 +165,7 @@ def run(ck):
     fl = ck.flow(sc)
     done = ev_any(ev_assign("StoreEntry::swap_status", m_enum("SWAPOUT_DONE")),
                   ev_call("storeDirSwapLog", arg={1: m_enum("SWAP_LOG_ADD")}))
+    ck.need(ck.trigger_edges(sc, E.m_is_ref("errflag"), True), "C16: storeSwapOutFileClosed no longer tests errflag directly (re-confirm the U1 instance)")
     ck.require_fact("U1.log-after-complete", fl, done, E.m_is_ref("errflag"), False, "SWAPOUT_DONE|SWAP_LOG_ADD", min_sites=2, why="(a failed swap-out would be logged as a stored entry)")
     ck.require_fact("U1.log-after-complete", fl, done, E.m_cmp("<", E.m_calls("StoreEntry::objectLen"), E.m_const(0)), False, "SWAPOUT_DONE|SWAP_LOG_ADD", min_sites=2)
 
